@@ -332,27 +332,25 @@ func c12merge(c *Ctx, fn *ssa.Function) {
 
 	r.Rule("FLOW(cache coherence): on every return of MergeFuncUpdateCgroup that may carry a nil error, the returned updater is (a) a clone whose value field is set to the old content when nothing was written, (b) a clone whose value is set to the merged value when the write happened, or (c) the original updater only under mergedValue == value")
 	n := 0
-	for _, b := range fn.Blocks {
-		ret, ok := b.Instrs[len(b.Instrs)-1].(*ssa.Return)
-		if !ok {
-			continue
-		}
+	for _, alt := range an.ReturnAlts(fn) {
+		ret := alt.Ret
+		_ = ret
 		reach := an.Explore(fn, nil, nil, nil)
-		if reach.EvalAt(ret.Results[1], ret) == an.NonNil {
+		if reach.EvalAt(alt.Results[1], ret) == an.NonNil {
 			continue
 		}
 		// a return whose error is the write's own result counts as a success return too
 		n++
 		k := sprintf("%s/returned-updater#%d", key, n)
 		afterWrite := w.Block() == ret.Block() || w.Block().Dominates(ret.Block())
-		u := an.Origin(ret.Results[0])
+		u := an.Origin(alt.Results[0])
 		if ta, ok := u.(*ssa.TypeAssert); ok {
 			u = ta.X
 		}
 		// clone?
 		var cloneVal ssa.Value
 		isClone := false
-		for x := range backwardAll(ret.Results[0]) {
+		for x := range backwardAll(alt.Results[0]) {
 			if call, ok := x.(*ssa.Call); ok && call.Call.IsInvoke() && call.Call.Method.Name() == "Clone" {
 				isClone = true
 				// find store to .value of the asserted clone
@@ -377,7 +375,7 @@ func c12merge(c *Ctx, fn *ssa.Function) {
 		case !isClone && afterWrite:
 			// original updater: only if merged == value
 			okEq := false
-			for _, g := range an.Guards(ret) {
+			for _, g := range alt.Guards {
 				if bo, ok := g.Cond.(*ssa.BinOp); ok && (bo.X == merged || bo.Y == merged) {
 					if (bo.Op == token.NEQ && !g.Truth) || (bo.Op == token.EQL && g.Truth) {
 						okEq = true
